@@ -224,7 +224,7 @@ def random_pieces(rng, n):
 ERROR_NAMES = ['success', 'success_join', 'parse_limit', 'parse_noselect', 'parse_update_field', 'syntax', 'runtime_k', 'unknown_join',
                'join_decode', 'input_decode', 'rfc_quote', 'header_width', 'monocolumn', 'missing_input', 'missing_outdir',
                'nonascii_latin1', 'strict_left_join', 'join_runtime', 'aggregate_misuse', 'sqlite_ok', 'sqlite_bad_table', 'sqlite_runtime',
-               'sqlite_missing_outdir', 'no_field', 'pipe_on_file']
+               'sqlite_missing_outdir', 'no_field', 'pipe_on_file', 'init_file_raises', 'init_file_ok', 'table_names_lookup', 'table_names_lookup_decode']
 
 
 def gen_error_scenario(rng):
@@ -293,6 +293,16 @@ def gen_error_scenario(rng):
         sc['out_to'] = 'file'
         sc['file_budget'] = rng.choice([0, 1, 5])
         sc['query'] = rng.choice(['select *', q_join, 'select a1 order by a1'])
+    elif name in ('init_file_raises', 'init_file_ok'):
+        sc['front'] = 'cli'
+        sc['init_code'] = 'def foo(x):\n    return x + "!"\n' + ('raise ValueError("boom")\n' if name == 'init_file_raises' else '')
+        sc['query'] = 'select foo(a1)'
+    elif name in ('table_names_lookup', 'table_names_lookup_decode'):
+        # JOIN table found through ~/.rbql_table_names (HOME is the private directory)
+        sc['query'] = 'select a1, b2 join myalias on a2 == b1'
+        sc['table_alias'] = 'myalias'
+        if name == 'table_names_lookup_decode':
+            sc['join_bad_pos'] = rng.randrange(max(1, len(sc['join_text'].encode('utf-8'))))
     elif name == 'sqlite_bad_table':
         sc['sqlite_table'] = rng.choice(['nosuch', 'ta;drop table ta', 'ta x'])
     elif name == 'sqlite_runtime':
@@ -576,6 +586,18 @@ def _run_process(t, sc, fault, obs):
                 raws['join'] = raw
                 return io.BufferedReader(raw, buffer_size=max(1, bad['bufsize']))
             tracker.substitutes[join_path] = sub_join
+    home = os.path.join(fsseam.scratch_dir(), 'home')
+    index_path = os.path.join(home, '.rbql_table_names')
+    if sc.get('table_alias'):
+        with open(index_path, 'w') as f:
+            f.write('other\t/nonexistent\n%s\t%s\n' % (sc['table_alias'], join_path))
+    elif os.path.exists(index_path):
+        os.unlink(index_path)
+    init_path = None
+    if sc.get('init_code') is not None:
+        init_path = os.path.join(w, 'init_source.py')
+        with open(init_path, 'w') as f:
+            f.write(sc['init_code'])
     stdin = None
     use_stdin = sc.get('in_from') == 'stdin' and not sc.get('missing_input')
     if bad is not None and bad['where'] == 'input' and bad.get('pieces') is not None:
@@ -627,6 +649,8 @@ def _run_process(t, sc, fault, obs):
             argv += ['--output', out_path]
         if sc['with_headers']:
             argv += ['--with-headers']
+        if init_path:
+            argv += ['--init-source-file', init_path]
         if sc.get('color') and not to_file:
             argv += ['--color']
         if sc.get('out_format', 'input') != 'input':
@@ -677,6 +701,8 @@ def _run_process(t, sc, fault, obs):
         if stdout is None and seam.default_out_raw is not None and not to_file:
             out_raw = seam.default_out_raw
     tracker.close_all()
+    if os.path.exists(index_path):
+        os.unlink(index_path)
     if real_pipe_w is not None:
         try:
             stdout.close()
